@@ -271,6 +271,8 @@ struct CPipe {
     rx: Option<compio_fs::pipe::Receiver>,
     tx: Option<compio_fs::pipe::Sender>,
     buffered: usize,
+    /// a named FIFO opened read-write on both ends: never EOF, never EPIPE
+    fifo: bool,
 }
 
 #[derive(Default)]
@@ -348,7 +350,35 @@ fn try_construct(shs: &[Shape]) -> Obs {
 
 async fn compio_line(st: &mut CState, dir: &Path, w: &[&str]) -> Obs {
     let num = |s: &str| s.parse::<u64>().ok();
+    if fifo_guard(dir, w) {
+        return obs("unsupported");
+    }
     match w {
+        ["mkfifo", name] => res_obs(mkfifo(&dir.join(name))),
+        ["fifo", p, name] => {
+            let Some(p) = num(p) else { return obs("bad-op") };
+            let mut oo = compio_fs::pipe::OpenOptions::new();
+            oo.read_write(true);
+            let rx = match oo.open_receiver(dir.join(name)).await {
+                Ok(rx) => rx,
+                Err(e) => return err_obs(&e),
+            };
+            match oo.open_sender(dir.join(name)).await {
+                Ok(tx) => {
+                    st.pipes.insert(p, CPipe { rx: Some(rx), tx: Some(tx), buffered: 0, fifo: true });
+                    obs("ok")
+                }
+                Err(e) => err_obs(&e),
+            }
+        }
+        ["readall", name] => match compio_fs::read(dir.join(name)).await {
+            Ok(c) => obs(format!("ok {}", hex(&c))),
+            Err(e) => err_obs(&e),
+        },
+        ["writeall", name, data] => {
+            let Some(d) = unhex_checked(data) else { return obs("bad-op") };
+            res_obs(compio_fs::write(dir.join(name), d).await.0)
+        }
         ["open", h, name, bits] => {
             let (Some(h), true) = (num(h), bits.len() == 5 && bits.bytes().all(|b| b == b'0' || b == b'1')) else { return obs("bad-op") };
             let b: Vec<bool> = bits.bytes().map(|x| x == b'1').collect();
@@ -501,7 +531,7 @@ async fn compio_line(st: &mut CState, dir: &Path, w: &[&str]) -> Obs {
             let Some(p) = num(p) else { return obs("bad-op") };
             match compio_fs::pipe::anonymous().await {
                 Ok((rx, tx)) => {
-                    st.pipes.insert(p, CPipe { rx: Some(rx), tx: Some(tx), buffered: 0 });
+                    st.pipes.insert(p, CPipe { rx: Some(rx), tx: Some(tx), buffered: 0, fifo: false });
                     obs("ok")
                 }
                 Err(e) => err_obs(&e),
@@ -577,7 +607,7 @@ async fn compio_line(st: &mut CState, dir: &Path, w: &[&str]) -> Obs {
         ["pread", p, buf] => {
             let (Some(p), Some(sh)) = (num(p), parse_rbuf(buf)) else { return obs("bad-op") };
             let Some(pp) = st.pipes.get_mut(&p) else { return obs("nohandle") };
-            let writer_open = pp.tx.is_some();
+            let writer_open = pp.tx.is_some() || pp.fifo;
             let Some(rx) = pp.rx.as_mut() else { return obs("closed") };
             if !sh.wf() {
                 return try_construct(&[sh]);
@@ -606,7 +636,7 @@ async fn compio_line(st: &mut CState, dir: &Path, w: &[&str]) -> Obs {
             let shs: Option<Vec<Shape>> = list_of(bufs).into_iter().map(parse_rbuf).collect();
             let (Some(p), Some(shs)) = (num(p), shs) else { return obs("bad-op") };
             let Some(pp) = st.pipes.get_mut(&p) else { return obs("nohandle") };
-            let writer_open = pp.tx.is_some();
+            let writer_open = pp.tx.is_some() || pp.fifo;
             let Some(rx) = pp.rx.as_mut() else { return obs("closed") };
             if !wf_all(&shs) {
                 return try_construct(&shs);
@@ -691,6 +721,27 @@ async fn compio_line(st: &mut CState, dir: &Path, w: &[&str]) -> Obs {
     }
 }
 
+fn is_fifo_path(p: &Path) -> bool {
+    use std::os::unix::fs::FileTypeExt;
+    std::fs::metadata(p).map(|m| m.file_type().is_fifo()).unwrap_or(false)
+}
+
+/// opening a FIFO through the plain file API would block (no peer): such lines are not executed
+fn fifo_guard(dir: &Path, w: &[&str]) -> bool {
+    let name = match w {
+        ["open", _, name, _] | ["fseqopen", _, name, _] => name,
+        ["content", name] | ["readall", name] | ["writeall", name, _] => name,
+        _ => return false,
+    };
+    is_fifo_path(&dir.join(name))
+}
+
+fn mkfifo(p: &Path) -> io::Result<()> {
+    use std::os::unix::ffi::OsStrExt;
+    let c = CString::new(p.as_os_str().as_bytes()).map_err(|_| io::Error::from_raw_os_error(22))?;
+    if unsafe { libc::mkfifo(c.as_ptr(), 0o644) } != 0 { Err(io::Error::last_os_error()) } else { Ok(()) }
+}
+
 fn meta_obs(is_dir: bool, is_file: bool, is_symlink: bool, len: u64, mode: u32, nlink: u64) -> Obs {
     let text = if is_dir {
         "ok dir".to_string()
@@ -731,6 +782,7 @@ struct OPipe {
     rx: Option<OwnedFd>,
     tx: Option<OwnedFd>,
     buffered: usize,
+    fifo: bool,
 }
 
 #[derive(Default)]
@@ -796,11 +848,41 @@ fn std_meta(m: io::Result<std::fs::Metadata>) -> Obs {
 
 fn os_line(st: &mut OState, dir: &Path, w: &[&str]) -> Obs {
     let num = |s: &str| s.parse::<u64>().ok();
+    if fifo_guard(dir, w) {
+        return obs("unsupported");
+    }
     let wr = |r: io::Result<usize>| match r {
         Ok(n) => obs(format!("ok {n}")),
         Err(e) => err_obs(&e),
     };
     match w {
+        ["mkfifo", name] => res_obs(mkfifo(&dir.join(name))),
+        ["fifo", p, name] => {
+            use std::os::unix::fs::FileTypeExt;
+            let Some(p) = num(p) else { return obs("bad-op") };
+            let open = || -> io::Result<std::fs::File> {
+                let f = std::fs::OpenOptions::new().read(true).write(true).open(dir.join(name))?;
+                if !f.metadata()?.file_type().is_fifo() {
+                    return Err(io::Error::from_raw_os_error(22));
+                }
+                Ok(f)
+            };
+            match open().and_then(|rx| Ok((rx, open()?))) {
+                Ok((rx, tx)) => {
+                    st.pipes.insert(p, OPipe { rx: Some(rx.into()), tx: Some(tx.into()), buffered: 0, fifo: true });
+                    obs("ok")
+                }
+                Err(e) => err_obs(&e),
+            }
+        }
+        ["readall", name] => match std::fs::read(dir.join(name)) {
+            Ok(c) => obs(format!("ok {}", hex(&c))),
+            Err(e) => err_obs(&e),
+        },
+        ["writeall", name, data] => {
+            let Some(d) = unhex_checked(data) else { return obs("bad-op") };
+            res_obs(std::fs::write(dir.join(name), d))
+        }
         ["open", h, name, bits] => {
             let (Some(h), true) = (num(h), bits.len() == 5 && bits.bytes().all(|b| b == b'0' || b == b'1')) else { return obs("bad-op") };
             let b: Vec<bool> = bits.bytes().map(|x| x == b'1').collect();
@@ -894,7 +976,7 @@ fn os_line(st: &mut OState, dir: &Path, w: &[&str]) -> Obs {
                 return err_obs(&io::Error::last_os_error());
             }
             let (rx, tx) = unsafe { (OwnedFd::from_raw_fd(fds[0]), OwnedFd::from_raw_fd(fds[1])) };
-            st.pipes.insert(p, OPipe { rx: Some(rx), tx: Some(tx), buffered: 0 });
+            st.pipes.insert(p, OPipe { rx: Some(rx), tx: Some(tx), buffered: 0, fifo: false });
             obs("ok")
         }
         ["pclose", p, which] => {
@@ -936,7 +1018,7 @@ fn os_line(st: &mut OState, dir: &Path, w: &[&str]) -> Obs {
             let shs: Option<Vec<Shape>> = if vectored { list_of(buf).into_iter().map(parse_rbuf).collect() } else { parse_rbuf(buf).map(|s| vec![s]) };
             let (Some(p), Some(shs)) = (num(p), shs) else { return obs("bad-op") };
             let Some(pp) = st.pipes.get_mut(&p) else { return obs("nohandle") };
-            let writer_open = pp.tx.is_some();
+            let writer_open = pp.tx.is_some() || pp.fifo;
             let Some(rx) = pp.rx.as_ref() else { return obs("closed") };
             if !wf_all(&shs) {
                 return obs("panic");
@@ -1164,7 +1246,9 @@ fn gen_dir_case(rng: &mut Rng) -> Vec<String> {
             7 | 8 => l.push(format!("hardlink {a} {b}")),
             9 => l.push(format!("symlink {a} {b}")),
             10 => l.push(format!("stat {a}")),
-            11 => l.push(format!("lstat {a}")),
+            11 if rng.chance(1, 2) => l.push(format!("lstat {a}")),
+            11 if rng.chance(1, 2) => l.push(format!("readall {a}")),
+            11 => l.push(format!("writeall {a} {}", hex(&rbytes(rng, 0, 9)))),
             12 | 13 => {
                 let h = handles.len() as u64 + 1;
                 l.push(format!("open {h} {a} {}", bits(true, rng.chance(1, 2), false, rng.chance(1, 3), false)));
@@ -1221,6 +1305,60 @@ fn gen_pipe_case(rng: &mut Rng) -> Vec<String> {
     for _ in 0..3 {
         l.push("preadv 1 24:0:0,24:0:7".into());
     }
+    l
+}
+
+fn gen_fifo_case(rng: &mut Rng) -> Vec<String> {
+    let mut l = vec!["mkfifo p".to_string()];
+    let mut name = "p";
+    match rng.below(5) {
+        0 => {
+            l.push("symlink p q".into());
+            name = "q";
+        }
+        1 => {
+            l.push("hardlink p q".into());
+            l.push("rename p q".into());
+            name = "q";
+        }
+        2 => {
+            l.push("rename p q".into());
+            name = "q";
+        }
+        _ => {}
+    }
+    // things that are not FIFOs
+    match rng.below(4) {
+        0 => {
+            l.push("writeall a 0102".into());
+            l.push("fifo 2 a".into());
+        }
+        1 => l.push("fifo 2 b".into()),
+        2 => {
+            l.push("mkdir d".into());
+            l.push("fifo 2 d".into());
+        }
+        _ => l.push(format!("open 3 {name} 11000")),
+    }
+    l.push(format!("fifo 1 {name}"));
+    l.push(format!("lstat {name}"));
+    l.push("stat p".into());
+    for _ in 0..rng.range(3, 9) {
+        match rng.below(6) {
+            0 | 1 => l.push(format!("pwrite 1 {}", gen_wbuf(rng))),
+            2 => l.push(format!("pwritev 1 {}", gen_list(rng, gen_wbuf))),
+            3 | 4 => l.push(format!("pread 1 {}", gen_rbuf(rng))),
+            _ => l.push(format!("preadv 1 {}", gen_list(rng, gen_rbuf))),
+        }
+    }
+    if rng.chance(1, 3) {
+        l.push("pclose 1 w".into());
+        l.push("pread 1 8:0:0".into());
+        l.push("pread 1 8:0:0".into());
+    }
+    l.push(format!("unlink {name}"));
+    l.push("lstat p".into());
+    l.push("lstat q".into());
     l
 }
 
@@ -1281,7 +1419,7 @@ fn gen_hostile_case(rng: &mut Rng) -> Vec<String> {
 }
 
 fn generate(tier: &str, rng: &mut Rng) -> Vec<Case> {
-    let scale = if tier == "thorough" { 12 } else { 1 };
+    let scale = if tier == "thorough" { 5 } else { 1 };
     let mut cases = vec![];
     let mut push = |name: String, lines: Vec<String>| cases.push(Case { name, lines });
     // all 32 open-option settings x what the name is
@@ -1322,6 +1460,9 @@ fn generate(tier: &str, rng: &mut Rng) -> Vec<Case> {
     for i in 0..40 * scale {
         push(format!("hostile/{i}"), gen_hostile_case(rng));
     }
+    for i in 0..40 * scale {
+        push(format!("fifo/{i}"), gen_fifo_case(rng));
+    }
     for i in 0..4 * scale {
         push(format!("fseq/{i}"), gen_fseq_case(rng));
     }
@@ -1329,6 +1470,50 @@ fn generate(tier: &str, rng: &mut Rng) -> Vec<Case> {
 }
 
 // ---------------------------------------------------------------------------------------------
+
+/// distribution tags: buffer shapes and positions of a read/write line
+fn shape_tags(line: &str) -> Vec<String> {
+    let w: Vec<&str> = line.split_whitespace().collect();
+    let (bufs, read) = match w.as_slice() {
+        ["readat", _, _, b] | ["readv", _, _, b] | ["pread", _, b] | ["preadv", _, b] | ["fseqread", _, b] => (*b, true),
+        ["writeat", _, _, b] | ["writev", _, _, b] | ["pwrite", _, b] | ["pwritev", _, b] | ["fseqwrite", _, b] => (*b, false),
+        _ => return vec![],
+    };
+    let mut t = vec![];
+    let items = list_of(bufs);
+    if items.is_empty() {
+        t.push("shape:empty-iovec-list".to_string());
+    }
+    for it in items {
+        let sh = if read { parse_rbuf(it) } else { parse_wbuf(it) };
+        let Some(sh) = sh else { continue };
+        if !sh.wf() {
+            t.push("shape:ill-formed".into());
+            continue;
+        }
+        if sh.sliced {
+            t.push(if sh.begin == sh.len && sh.end.is_none() { "shape:slice-append".into() } else { "shape:slice-window".to_string() });
+        }
+        if read {
+            let (_, wl) = sh.window();
+            t.push(
+                if wl == 0 {
+                    "shape:zero-capacity"
+                } else if sh.len == 0 {
+                    "shape:fresh-spare"
+                } else if sh.len == sh.mem.len() {
+                    "shape:fully-initialised"
+                } else {
+                    "shape:partly-initialised"
+                }
+                .to_string(),
+            );
+        } else {
+            t.push(if sh.visible().is_empty() { "shape:zero-length-write" } else if sh.len < sh.mem.len() { "shape:write-with-spare" } else { "shape:write-exact" }.to_string());
+        }
+    }
+    t
+}
 
 fn mk_rt(t: DriverType) -> Runtime {
     let mut pb = ProactorBuilder::new();
@@ -1372,6 +1557,9 @@ fn main() {
             let op = line.split_whitespace().next().unwrap_or("");
             let fseq = op.starts_with("fseq") && op != "fseqopen";
             ex.tag(format!("op:{op}"));
+            for t in shape_tags(line) {
+                ex.tag(t);
+            }
             if a[i].text == b[i].text {
                 ex.out.push(a[i].text.clone());
             } else {
